@@ -3,30 +3,43 @@ import json
 import os
 
 
+J = ["-Xmx2g"]
+
+
 def run(ctx):
     t = ctx.tier
     ctx.level = "model_checking"
     ctx.rule = ("errchain: TLC enumerates every nesting of the errors package's constructors (WithStack, WithMessage, Wrap, Wrapf) to depth 4 (6 thorough) "
-                "over nil / foreign / New / Errorf roots; framed: TLC enumerates RTMP sessions, FLV files (1-3 items over boundary shapes) and the handshake; for "
-                "each the replayer enumerates EVERY cut offset 0..len (all boundaries +-3, header bytes and a stride for streams above 4 kB) under whole and 1-byte "
-                "segmentation, an injected error at every read call index and at every write call index; FramedIo's Complete(n) is the oracle")
+                "over nil / foreign / New / Errorf roots, and (errdeep) every nesting of 1-2 (3 thorough) RUNS of one constructor repeated 1 / 33 / (100) / 1000 "
+                "times (total depth up to 1100, 2100 thorough); framed: TLC enumerates RTMP sessions, FLV files (1-3 items over boundary shapes) and the handshake; for "
+                "each the replayer enumerates EVERY cut offset 0..len (all boundaries +-3, header bytes and a stride for streams above 4 kB; thorough: above 20 kB, "
+                "with a seeded 1/24 of the streams up to 150 kB at every offset) under whole and 1-byte "
+                "segmentation, a transport that fails ONCE at every read call index (whole, random, item-aligned and 1-byte segmentation) and at every write "
+                "call index; FramedIo's Complete(n) and ErrorSurfaces (the library call during which the transport failed reports it) are the oracle")
     ctx.exhaustive = True
     ctx.assumptions += ["EOF vs UnexpectedEOF at a given offset is the library's choice (either accepted)",
                         "item end offsets are taken from the library's own clean write (the specification's predicted sizes are compared as information only)"]
     ctx.sany("errio", "ErrChain")
     ctx.sany("errio", "FramedIo")
-    ctx.tlc("errio", "MC_ErrChain", "MC_ErrChain.cfg")
-    ctx.tlc("errio", "MC_FramedIo", "MC_FramedIo.cfg", coverage=(t == "thorough"))
-    ctx.tlc("errio", "MC_FramedIo", "MC_FramedIo_deviation.cfg", expect_violation="ReturnedOk", count_states=False)
+    ctx.tlc("errio", "MC_ErrChain", "MC_ErrChain.cfg", jopts=J)
+    ctx.tlc("errio", "MC_ErrChain", "MC_ErrChain_deviation.cfg", expect_violation="CauseIsRoot", count_states=False, jopts=J)
+    ctx.tlc("errio", "MC_FramedIo", "MC_FramedIo.cfg", coverage=(t == "thorough"), jopts=J)
+    ctx.tlc("errio", "MC_FramedIo", "MC_FramedIo_deviation.cfg", expect_violation="ReturnedOk", count_states=False, jopts=J)
+    ctx.tlc("errio", "MC_FramedIo", "MC_FramedIo_swallow.cfg", expect_violation="ErrorSurfaces", count_states=False, jopts=J)
     ec = os.path.join(ctx.out, "errchain.ndjson")
-    ctx.tlc("errio", "MC_ErrChain", "Gen_ErrChain.%s.cfg" % t, cases_to=ec, count_states=False)
+    ctx.tlc("errio", "MC_ErrChain", "Gen_ErrChain.%s.cfg" % t, cases_to=ec, count_states=False, jopts=J)
     res = ctx.replay("errchain", ec)
     ctx.judge("errchain", ec, res)
+    # deep chains: runs of one constructor repeated up to 1000 times (the same replayer, second stage name for the evidence)
+    ed = os.path.join(ctx.out, "errdeep.ndjson")
+    ctx.tlc("errio", "MC_ErrChain", "Gen_ErrChainDeep.%s.cfg" % t, cases_to=ed, count_states=False, jopts=J)
+    res = ctx.replay("errdeep", ed, again=400)
+    ctx.judge("errdeep", ed, res)
     fc = os.path.join(ctx.out, "framed.ndjson")
-    ctx.tlc("errio", "Gen_FramedIo", "Gen_FramedIo.%s.cfg" % t, cases_to=fc)
-    # a thorough framed case replays a 150 kB stream at every cut offset: the second pass takes a sample only
-    # a thorough framed case replays a 150 kB stream at every cut offset (the stage takes about 50 minutes, allocation
-    # bound: parallel shards were slower in total): the second pass takes a small sample only
+    ctx.tlc("errio", "Gen_FramedIo", "Gen_FramedIo.%s.cfg" % t, cases_to=fc, jopts=J)
+    # thorough: a seeded 1/24 of the streams above 20 kB are replayed at EVERY cut offset (20 s for 66 kB, 80 s for 130 kB, the
+    # library re-reads the prefix for every offset), the others at boundaries, header bytes, buffer multiples and stride 61;
+    # every stream at every offset took more than 100 minutes on the shared machine. The second pass takes a small sample.
     res = ctx.replay("framed", fc, timeout=6000, again=(4000 if t == "quick" else 20))
     ctx.judge("framed", fc, res)
     def info(r):
